@@ -3,11 +3,14 @@ CONSTANTS Menu = "thorough"
           V <- Vals
           Concurrent = TRUE
 SPECIFICATION Spec
+INVARIANT WellFormed
 INVARIANT PendingIsSubset
 INVARIANT ProgressIsSet
 INVARIANT OrderIndependent
 INVARIANT NothingLeft
 INVARIANT ShapeKept
+INVARIANT LooksUntouched
+INVARIANT EveryKindAwaited
 INVARIANT AnyOrder
 PROPERTY NoEarlyReturn
 PROPERTY Termination
